@@ -887,6 +887,21 @@ impl Table for Rimt {
             let x = Op { k: I_RC, shape: map_shape(0, true, if n % 2 == 0 { 0 } else { 7 }, 0), fill: Fill::b(2).with(SZ, n) };
             v.push((format!("root-complex[{} mappings]", n), vec![io, io, x, io, rc]));
         }
+        // id mappings that continue each other (source and destination ranges adjacent, equal flags) but go to DIFFERENT
+        // IOMMUs, and the same going to one IOMMU: a list is emitted entry by entry, never merged
+        {
+            // mapping m reads fields base+6*(m%4) .. +5: source id base, destination id base, count, ats, pri, rciep
+            let contiguous = |base: u8, sv: u16, k: u8| Op {
+                k,
+                shape: map_shape(2, true, sv, 0),
+                fill: Fill::b(0).with(base, 0x100).with(base + 1, 0x2000).with(base + 2, 0x10).with(base + 6, 0x110).with(base + 7, 0x2010).with(base + 8, 0x10),
+            };
+            let io2 = Op::new(I_IOMMU, iommu_shape(0, false, true, false, false), 1);
+            v.push(("contiguous mappings to different iommus (root complex)".into(), vec![io, io2, contiguous(4, 0, I_RC), io, rc]));
+            v.push(("contiguous mappings to different iommus (platform)".into(), vec![io, io2, contiguous(1, 0, I_PLAT), io, rc]));
+            v.push(("contiguous mappings to one iommu".into(), vec![io, contiguous(4, 0, I_RC), contiguous(1, 0, I_PLAT), io]));
+            v.push(("identical mappings".into(), vec![io, io2, Op { k: I_RC, shape: map_shape(3, true, 0, 0), fill: Fill::b(0) }, Op { k: I_PLAT, shape: map_shape(2, true, 0, 1), fill: Fill::b(crate::fill::EQUAL) }]));
+        }
         // mappings whose destination offset was issued by another (larger) table, with no IOMMU / one IOMMU of its own before
         v.push(("foreign iommu offset, empty table".into(), vec![Op::new(I_RC, map_shape(2, true, 5, 0), 2), Op::new(I_PLAT, map_shape(1, true, 5, 1), 1), io, rc]));
         v.push(("foreign iommu offset, later".into(), vec![io, Op::new(I_PLAT, map_shape(2, true, 5, 0), 2), Op::new(I_RC, map_shape(1, true, 5, 0), 1), io, rc]));
